@@ -335,6 +335,53 @@ Proof.
   intros Hc. rewrite map2_length, map_length. apply rev_ops_length_le. destruct (Hlen Hc). lia.
 Qed.
 
+(* co-generation: two summed product series; either price rising strictly in one year where that product is sold, the
+   other product's prices not falling; the other series (and the carbon series) must cover that product's years *)
+Lemma F2lt_map2_plus_r : forall b b', Forall2_one_lt b b' -> forall a a', Forall2 Qle a a' ->
+  (length b <= length a)%nat -> Forall2_one_lt (map2 Qplus a b) (map2 Qplus a' b').
+Proof.
+  intros b b' H. induction H as [x y l l' Hxy Hl | x y l l' Hxy _ IH]; intros a a' Ha Hlen;
+    (destruct Ha as [|u u' a a' Hu Ha]; simpl in Hlen; [lia|]); simpl.
+  - apply F2lt_here; [lra | now apply F2le_map2_plus].
+  - apply F2lt_later; [lra | apply IH; [assumption | lia]].
+Qed.
+
+Theorem npv_strict_in_cogen_electricity_price r c pE pE' pH pH' : 0 < 1 + r ->
+  ci_kind c = KCogen -> nonneg (ci_eE c) -> nonneg (ci_eH c) -> Forall2 Qle pE pE' -> Forall2 Qle pH pH' ->
+  (length (ci_eE c) <= length (ci_eH c))%nat -> (length (ci_eE c) <= length pH)%nat ->
+  (ci_carbon c = true -> (length (ci_eE c) <= length (ci_pCarb c))%nat) ->
+  (exists j, 0 < nth j (ci_eE c) 0 /\ nth j pE 0 < nth j pE' 0 /\ (j < length (ci_eE c))%nat /\ (j < length pE)%nat) ->
+  npv r (total_cashflow (with_prices c pE pH (ci_pC c))) < npv r (total_cashflow (with_prices c pE' pH' (ci_pC c))).
+Proof.
+  intros Hr Hk HE HH HpE HpH HlH HlpH Hlen Hj. apply npv_strict_mono; [assumption|].
+  unfold total_cashflow. cbn [with_prices ci_cy ci_ccap]. unfold capex_year. cbn [with_prices ci_cy ci_ccap].
+  apply F2lt_app_l. unfold total_ops.
+  cbn [with_prices ci_kind ci_eE ci_eH ci_eC ci_pE ci_pH ci_pC ci_carbon ci_gi ci_ni ci_pCarb ci_coam].
+  rewrite Hk. unfold product_rev_ops, carbon_rev_ops, carbon_lbs_ops.
+  apply withc_strict.
+  - apply F2lt_map2_plus_l; [now apply rev_ops_strict | now apply rev_ops_mono|].
+    unfold rev_ops. rewrite !map2_length. lia.
+  - intros Hc. specialize (Hlen Hc). unfold rev_ops. rewrite !map2_length. lia.
+Qed.
+
+Theorem npv_strict_in_cogen_heat_price r c pE pE' pH pH' : 0 < 1 + r ->
+  ci_kind c = KCogen -> nonneg (ci_eE c) -> nonneg (ci_eH c) -> Forall2 Qle pE pE' -> Forall2 Qle pH pH' ->
+  (length (ci_eH c) <= length (ci_eE c))%nat -> (length (ci_eH c) <= length pE)%nat ->
+  (ci_carbon c = true -> (length (ci_eH c) <= length (ci_pCarb c))%nat) ->
+  (exists j, 0 < nth j (ci_eH c) 0 /\ nth j pH 0 < nth j pH' 0 /\ (j < length (ci_eH c))%nat /\ (j < length pH)%nat) ->
+  npv r (total_cashflow (with_prices c pE pH (ci_pC c))) < npv r (total_cashflow (with_prices c pE' pH' (ci_pC c))).
+Proof.
+  intros Hr Hk HE HH HpE HpH HlE HlpE Hlen Hj. apply npv_strict_mono; [assumption|].
+  unfold total_cashflow. cbn [with_prices ci_cy ci_ccap]. unfold capex_year. cbn [with_prices ci_cy ci_ccap].
+  apply F2lt_app_l. unfold total_ops.
+  cbn [with_prices ci_kind ci_eE ci_eH ci_eC ci_pE ci_pH ci_pC ci_carbon ci_gi ci_ni ci_pCarb ci_coam].
+  rewrite Hk. unfold product_rev_ops, carbon_rev_ops, carbon_lbs_ops.
+  apply withc_strict.
+  - apply F2lt_map2_plus_r; [now apply rev_ops_strict | now apply rev_ops_mono|].
+    unfold rev_ops. rewrite !map2_length. lia.
+  - intros Hc. specialize (Hlen Hc). unfold rev_ops. rewrite !map2_length. lia.
+Qed.
+
 (* ---------- an add-on with zero cost and zero gains changes nothing ---------- *)
 (* EconomicsAddOns: every yearly energy gets the add-on's gain added; CAPEX / OPEX get the add-on's totals added *)
 Definition addon_energy (gain : Q) (e : list Q) : list Q := map (fun x => x + gain) e.
